@@ -64,7 +64,7 @@ func HarnessC10Types(L int) {
 var _ = yaml.ScalarNode
 
 // HarnessC10Knows: a path is attributed to a project iff it is the root or lies
-// below it (root and path absolute and clean, over a small alphabet).
+// below it (root and path absolute and clean, over a small alphabet that has a letter in both cases).
 func HarnessC10Knows(lr, lp int) {
 	root := verifSymString("root", lr)
 	path := verifSymString("path", lp)
@@ -72,7 +72,7 @@ func HarnessC10Knows(lr, lp int) {
 		r := true
 		for i := 0; i < len(s); i++ {
 			c := s[i]
-			r = verifAnd(r, verifOr(verifOr(c == '/', c == 'a'), verifOr(c == 'b', c == '.')))
+			r = verifAnd(r, verifOr(verifOr(verifOr(c == '/', c == 'a'), verifOr(c == 'b', c == '.')), c == 'A'))
 			if i > 0 {
 				r = verifAnd(r, verifNot(verifAnd(s[i-1] == '/', c == '/'))) // no "//"
 			}
@@ -85,7 +85,7 @@ func HarnessC10Knows(lr, lp int) {
 		}
 		return r
 	}
-	verifAssumeNote(verifAnd(ok(root), ok(path)), "C10 Knows: root and path are absolute, slash-clean paths over {/, a, b, .} (filepath.Abs is then the identity)")
+	verifAssumeNote(verifAnd(ok(root), ok(path)), "C10 Knows: root and path are absolute, slash-clean paths over {/, a, b, A, .} (filepath.Abs is then the identity; paths are case-sensitive)")
 	p := &Project{root: root}
 	got := p.Knows(path)
 	want := false
